@@ -658,20 +658,31 @@ class Runner:
             outer = (spec.get("wrappers") or [[spec["base"]]])[-1][0].lower()
             ctx.violation(f"{outer}-construction-raises-inside-documented-domain", {"stack": name, "spec": spec, "error": repr(e)[-500:]})
             return None
+        if static:
+            static_checks(ctx, env, spec)
+            documented_space_check(ctx, _layers(env)[-1], spec)
+        tm["build+static"] += time.time() - t0
+        t0 = time.time()
         try:
-            if static:
-                static_checks(ctx, env, spec)
-                documented_space_check(ctx, _layers(env)[-1], spec)
-            tm["build+static"] += time.time() - t0
-            t0 = time.time()
             sampled = np.asarray(_sample_actions(env, seed, K, T))
-            sampled = sampled.reshape((K, T) + sampled.shape[1:])
-            acts, drv = make_actions(ctx, env, sampled, K, T)
-            fn = _rollout_fn(T, self.succ)
-            keys = _keys(seed, K)
+        except Exception as e:  # noqa: BLE001
+            ctx.violation(f"{_owner(env, 'act')}-action-space-sample-raises", {"stack": name, "spec": spec, "error": repr(e)[-600:]})
+            return None
+        sampled = sampled.reshape((K, T) + sampled.shape[1:])
+        am = space_model(env.action_space)
+        if am is not None:
+            pre = judge(am, sampled.reshape((K * T,) + sampled.shape[2:]))
+            if pre["structural"]:  # the corner drivers could not even be laid over such samples
+                ctx.violation(f"{_owner(env, 'act')}-sampled-action-not-of-declared-shape-or-dtype",
+                              {"stack": name, "problem": pre["structural"], "spec": spec})
+                return None
+        acts, drv = make_actions(ctx, env, sampled, K, T)
+        fn = _rollout_fn(T, self.succ)
+        keys = _keys(seed, K)
+        try:
             out = _np_tree(jax.block_until_ready(fn(env, keys, jnp.asarray(acts))))
         except Exception as e:  # noqa: BLE001
-            ctx.violation(f"{spec['base'].lower()}-rollout-raises", {"stack": name, "spec": spec, "error": repr(e)[-600:]})
+            ctx.violation(f"{spec['base'].lower()}-rollout-raises", {"stack": name, "spec": spec, "seed": seed, "error": repr(e)[-600:]})
             return None
         tm["sample+rollout(first call compiles)"] += time.time() - t0
         t0 = time.time()
